@@ -421,8 +421,14 @@ func (c *Ctx) exec(fr *Frame, in ssa.Instruction) {
 			c.set(fr, in, Ptr{p: cell})
 		}
 	case *ssa.Store:
-		c.noMerge("store")
-		c.store(fr, c.get(fr, in.Addr).(Ptr), c.get(fr, in.Val))
+		if c.merging > 0 && c.guard != nil && !c.guard.IsTrue() {
+			// guarded assignment: the cell keeps its old value on paths outside the guard
+			p := c.get(fr, in.Addr).(Ptr)
+			old := c.load(fr, p)
+			c.store(fr, p, c.iteVal(c.guard, c.get(fr, in.Val), old))
+		} else {
+			c.store(fr, c.get(fr, in.Addr).(Ptr), c.get(fr, in.Val))
+		}
 	case *ssa.TypeAssert:
 		c.set(fr, in, c.typeAssert(fr, in))
 	case *ssa.Defer:
@@ -483,6 +489,13 @@ func (c *Ctx) load(fr *Frame, p Ptr) Value {
 	}
 	first := p.arr.elems[p.off]
 	if _, ok := first.(*Term); !ok {
+		if _, isAgg := first.(Agg); isAgg && p.n <= 64 && aggOfTerms(first) {
+			var cur Value = p.arr.elems[p.off+p.n-1]
+			for k := p.n - 2; k >= 0; k-- {
+				cur = c.iteVal(c.tb.Eq(p.idx, c.tb.Int(int64(k), 64)), p.arr.elems[p.off+k], cur)
+			}
+			return copyVal(cur)
+		}
 		q := c.concPtr(fr, p, "load")
 		return copyVal(*q.p)
 	}
@@ -705,10 +718,20 @@ func (c *Ctx) index(fr *Frame, in *ssa.Index) Value {
 			if x.b == nil {
 				return c.byteConst(x.c[i.cval])
 			}
+			if i.cval >= uint64(len(x.b)) {
+				// beyond the physical size: the bounds obligation above has made this point infeasible
+				if c.merging > 0 {
+					return c.byteConst(0)
+				}
+				panic(pathEnd{"index beyond physical string size"})
+			}
 			return x.b[i.cval]
 		}
 		bs := c.strBytes(x)
 		if len(bs) == 0 {
+			if c.merging > 0 {
+				return c.byteConst(0)
+			}
 			panic(pathEnd{"index into empty string"})
 		}
 		return c.iteChain(i, bs)
@@ -751,6 +774,9 @@ func (c *Ctx) indexAddr(fr *Frame, in *ssa.IndexAddr) Value {
 			panic(pathEnd{"index into nil slice"})
 		}
 		if i.isC {
+			if int(i.cval) >= x.cap {
+				return c.oobPtr(x.arr.elems, x.off)
+			}
 			return Ptr{p: &x.arr.elems[x.off+int(i.cval)]}
 		}
 		n := x.cap
@@ -763,6 +789,9 @@ func (c *Ctx) indexAddr(fr *Frame, in *ssa.IndexAddr) Value {
 		agg := (*x.p).(Agg)
 		c.boundsCheck(fr, i, c.tb.Int(int64(len(agg)), 64), "array")
 		if i.isC {
+			if i.cval >= uint64(len(agg)) {
+				return c.oobPtr(agg, 0)
+			}
 			return Ptr{p: &agg[i.cval]}
 		}
 		return Ptr{arr: &Array{elems: agg}, off: 0, idx: i, n: len(agg)}
@@ -1038,6 +1067,7 @@ func (c *Ctx) lookup(fr *Frame, in *ssa.Lookup) Value {
 }
 
 type rangeIter struct {
+	dist []*Term // merged mode: dist[k] = "the iterator stands at byte offset k"
 	m    *Map
 	i    int
 	s    Str
@@ -1057,6 +1087,13 @@ func (c *Ctx) rangeInit(fr *Frame, in *ssa.Range) Value {
 		return it
 	case Str:
 		x = c.normStr(x)
+		if x.b != nil && c.merging > 0 {
+			it := &rangeIter{s: x, isSt: true, dist: make([]*Term, len(x.b)+1)}
+			for k := range it.dist {
+				it.dist[k] = c.tb.Bool(k == 0)
+			}
+			return it
+		}
 		if x.b != nil {
 			x = c.concretizeStrLen(fr, x)
 		}
@@ -1068,6 +1105,9 @@ func (c *Ctx) rangeInit(fr *Frame, in *ssa.Range) Value {
 func (c *Ctx) next(fr *Frame, in *ssa.Next) Value {
 	it := c.get(fr, in.Iter).(*rangeIter)
 	tb := c.tb
+	if it.isSt && it.dist != nil {
+		return c.nextMergedStr(fr, it)
+	}
 	if it.isSt {
 		if it.s.b == nil {
 			if it.pos >= len(it.s.c) {
@@ -1117,4 +1157,82 @@ func decodeRune(s string) (rune, int) {
 		return r, len(string(r))
 	}
 	return 0, 0
+}
+
+// nextMergedStr advances a string iterator in merged mode. The byte offset is a
+// distribution of guards over concrete offsets; the rune at each offset is decoded by
+// the real utf8.DecodeRuneInString evaluated in merged mode.
+func (c *Ctx) nextMergedStr(fr *Frame, it *rangeIter) Value {
+	tb := c.tb
+	L := len(it.s.b)
+	dec := c.w.findFunc("unicode/utf8", "DecodeRuneInString")
+	ok := tb.Bool(false)
+	idx := tb.Int(0, 64)
+	var rn *Term = tb.Int(0, 32)
+	nd := make([]*Term, L+1)
+	for k := range nd {
+		nd[k] = tb.Bool(false)
+	}
+	outer := c.guard
+	for k := L - 1; k >= 0; k-- {
+		g := it.dist[k]
+		if g.IsFalse() {
+			continue
+		}
+		in := tb.And(g, tb.Bin("bvult", tb.Int(int64(k), 64), it.s.n))
+		if in.IsFalse() {
+			continue
+		}
+		sub := Str{b: it.s.b[k:], n: tb.Bin("bvsub", it.s.n, tb.Int(int64(k), 64))}
+		if outer != nil {
+			c.guard = tb.And(outer, in)
+		} else {
+			c.guard = in
+		}
+		_ = dec
+		rv, sz := c.utf8Decode(sub.b, sub.n)
+		c.guard = outer
+		ok = tb.Or(ok, in)
+		idx = tb.Ite(in, tb.Int(int64(k), 64), idx)
+		rn = tb.Ite(in, rv, rn)
+		for d := 1; d <= 4 && k+d <= L; d++ {
+			nd[k+d] = tb.Or(nd[k+d], tb.And(in, tb.Eq(sz, tb.Int(int64(d), 64))))
+		}
+	}
+	it.dist = nd
+	return Tuple{ok, idx, rn}
+}
+
+func aggOfTerms(v Value) bool {
+	a, ok := v.(Agg)
+	if !ok {
+		return false
+	}
+	for _, e := range a {
+		switch e := e.(type) {
+		case *Term:
+		case Agg:
+			if !aggOfTerms(e) {
+				return false
+			}
+		default:
+			return false
+		}
+	}
+	return true
+}
+
+// oobPtr: a constant index beyond the physical size. The bounds obligation just emitted has made
+// this point infeasible; merged evaluation continues on a scratch cell, a real path ends.
+func (c *Ctx) oobPtr(elems []Value, off int) Ptr {
+	if c.merging == 0 {
+		panic(pathEnd{"index beyond physical size"})
+	}
+	cell := new(Value)
+	if off < len(elems) {
+		*cell = copyVal(elems[off])
+	} else {
+		*cell = c.tb.Const(0, S8)
+	}
+	return Ptr{p: cell}
 }
